@@ -8,7 +8,6 @@ use crate::gen::xz::*;
 use crate::refmodel::model::Props;
 use crate::refmodel::xz::write_xz;
 use crate::runner::*;
-use crate::runner::Property as _;
 use crate::sut::{self, Io, Opts, ReaderKind, Run, Verdict};
 use proptest::prelude::*;
 use serde::{Deserialize, Serialize};
